@@ -195,3 +195,14 @@ func (p *Program) srcExprAt(pos token.Pos) string {
 	}
 	return ""
 }
+
+// ifaceKey names an interface method in contract files: "<pkg path relative to the module>:(<Iface>).<Method>".
+func (p *Program) ifaceKey(recv types.Type, method string) string {
+	name := stripGenerics(types.TypeString(recv, nil))
+	path := ""
+	if i := strings.LastIndex(name, "."); i >= 0 {
+		path, name = name[:i], name[i+1:]
+	}
+	path = strings.TrimPrefix(path, repoModule+"/")
+	return path + ":(" + name + ")." + method
+}
